@@ -49,6 +49,19 @@ def gen_tree(rng, max_nodes=10, links=True):
                 else: target = "missing-target"
             nodes.append((rel, "l", target))
         used.add(rel)
+    # names of more than 255 bytes exist only as link targets (the filesystem refuses to create them): a link - in a
+    # quarter of the trees an index file - whose target is such a name, inside or outside the root
+    if links and rng.random() < 0.35:
+        parent = rng.choice(dirs)
+        name = rng.choice(["index.gmi", "index.gmi", "index.gemini", "long-link", "a"])
+        rel = parent + "/" + name
+        if rel not in used:
+            depth = len(comps(rel)) - 1
+            target = rng.choice(["L" * 300, "L" * 256 + ".gmi", "sub/" + "L" * 300, "../" * depth + "outside/" + "L" * 300, "ABS:root/" + "L" * 300])
+            nodes.append((rel, "l", target)); used.add(rel)
+            other = parent + "/" + ("index.gemini" if name == "index.gmi" else "index.gmi")
+            if other not in used and rng.random() < 0.5:
+                nodes.append((other, "f", b"SENTINEL-BESIDE-LONG-%d" % len(nodes))); used.add(other)
     # every directory gets a uniquely named marker file, so that a listing identifies the directory it shows
     for i, (rel, kind, payload) in enumerate(list(nodes)):
         if kind == "d":
